@@ -282,7 +282,40 @@ func c13Dispatch(c *Ctx, ge *GuardEngine) {
 			callees[m[1]] = true
 		}
 	}
-	c.Check(len(rets) == 3 && len(callees) == 3, "era-dispatch", "three-eras", c.P.Pos(disp.Pos()), fmt.Sprintf("%d returns using %d distinct era algorithms (total case analysis with default)", len(rets), len(callees)))
+	c.Check(len(rets) >= 1 && len(callees) == 3, "era-dispatch", "three-eras", c.P.Pos(disp.Pos()), fmt.Sprintf("%d returns using %d distinct era algorithms (total case analysis with default)", len(rets), len(callees)))
+	// "target and difficulty are each other's floored inverse, in the direction the era defines": at every return of
+	// the dispatcher either the target comes from an era algorithm and the difficulty is Work{invTarget(that target)},
+	// or the difficulty comes from an era algorithm and the target is invTarget(that difficulty.n) — of the value
+	// returned, not of the previous state's
+	if rets1 := ge.ReturnAtoms(disp, 1); len(rets1) == len(rets) && disp.Signature.Results().Len() == 2 {
+		bad := ""
+		for k := range rets {
+			a0, a1 := rets[k], rets1[k]
+			okPair := false
+			const inv = "call consensus.invTarget("
+			if strings.HasPrefix(a0, "lit{n: "+inv) && strings.HasSuffix(a0, ")}") {
+				okPair = strings.TrimSuffix(strings.TrimPrefix(a0, "lit{n: "+inv), ")}") == a1
+			} else if strings.HasPrefix(a1, inv) && strings.HasSuffix(a1, ")") {
+				s0 := map[string]bool{}
+				for _, x := range splitPhi(a0) {
+					s0[x] = true
+				}
+				inner := splitPhi(strings.TrimSuffix(strings.TrimPrefix(a1, inv), ")"))
+				okPair = len(inner) == len(s0)
+				for _, x := range inner {
+					if !strings.HasSuffix(x, ".n") || !s0[strings.TrimSuffix(x, ".n")] {
+						okPair = false
+					}
+				}
+			}
+			if !okPair {
+				bad = "returns difficulty " + a0 + " with target " + a1
+			}
+		}
+		c.Check(bad == "", "era-dispatch", "inverse-pairing", c.P.Pos(disp.Pos()), ifElse(bad == "", "at every return the target is the inverse of the returned difficulty or the difficulty the inverse of the returned target", "the dispatcher "+bad+": the recorded target and difficulty are no longer each other's inverse"))
+	} else {
+		c.Undecided("era-dispatch", "inverse-pairing", c.P.Pos(disp.Pos()), "the dispatcher does not return (difficulty, target)")
+	}
 	// (4) clamp shape of each era algorithm
 	for name := range callees {
 		fn := c.P.SSAPackage("consensus").Func(name)
